@@ -95,6 +95,10 @@ func comparabilityGuarded(eq *ssa.BinOp) bool {
 			any = true
 			return true
 		}
+		// an operand known to be the nil interface: == involving a nil interface never inspects dynamic types
+		if nilOnEdge(b, si, eq.X) || nilOnEdge(b, si, eq.Y) {
+			return true
+		}
 		return false
 	}
 	q := &pathQuery{fn: fn, cutEdge: cut, target: func(ins ssa.Instruction) bool { return ins == ssa.Instruction(eq) }}
